@@ -436,6 +436,7 @@ func c12(c *Ctx) {
 		{fn: "codecs.(*VP9Packet).Unmarshal", want: []int{1}, minOnly: true, why: "1 mandatory descriptor octet"},
 		{fn: "codecs/vp9.(*Header).Unmarshal", want: []int{1}, minOnly: true, why: "show_existing_frame header fits one octet"}})
 	r.Floor("VP9 presence rows", np, 13)
+	colorConfigScript(c)
 	var entries []*ssa.Function
 	for _, nme := range []string{"codecs.(*VP9Payloader).Payload", "codecs.(*VP9Packet).Unmarshal", "codecs.(*VP9Packet).IsPartitionHead", "codecs/vp9.(*Header).Unmarshal"} {
 		if f := p.Func(nme); f != nil {
